@@ -1,4 +1,5 @@
-"""decision kernels of the primal-dual interior-point solver (src/program/solver.cpp), property C04.
+"""kernels of the primal-dual interior-point solver (src/program/solver.cpp: decisions, step length) and of program::reduce
+(src/program/util.cpp: integer expressions around the LU-based row reduction), property C04.
 
 The expressions compare doubles; they are translated as order formulas over Z (comparisons, &&, ||, max, ?:) and the
 Coq model instantiates them at an order embedding of the rational quantities into Z (C04_Defs.zs4 / phi), so the
